@@ -71,6 +71,47 @@ def fqform_case(cr, co, xm, partner):
     return out
 
 
+def iop_case(cr, co, xm, ym):
+    """augmented assignment must behave like the binary operator and must not change the object the
+    name was bound to before (no aliasing): y = x; y op= z  =>  y == x op z and x unchanged"""
+    import operator as _o
+
+    out = []
+    for fam, cfg in (("ref", cr), ("opt", co)):
+        for nm, f in (("iadd", _o.iadd), ("isub", _o.isub), ("imul", _o.imul), ("itruediv", _o.itruediv)):
+            x = cfg.lib(xm)
+            z = cfg.lib(ym)
+            if fam == "opt":
+                try:
+                    _ = x.sgn0  # a memoised sign must not survive an in-place update
+                except AttributeError:
+                    pass
+            alias = x
+            try:
+                alias = f(alias, z)
+                got = fl.canon(cfg, alias)
+            except Exception as e:  # noqa: BLE001
+                got = ("raise", type(e).__name__)
+            exp = fl.model_op(cfg, {"iadd": "add", "isub": "sub", "imul": "mul", "itruediv": "div"}[nm], xm, ym)
+            if got != exp:
+                out.append(("%s:%s" % (nm, fam), (exp, got)))
+            keep = fl.canon(cfg, x)
+            if keep != ("ok", xm):
+                out.append(("%s:%s:operand-changed" % (nm, fam), (("ok", xm), keep)))
+            keepz = fl.canon(cfg, z)
+            if keepz != ("ok", ym):
+                out.append(("%s:%s:right-operand-changed" % (nm, fam), (("ok", ym), keepz)))
+    return out
+
+
+def replay_iop(a):
+    cr, co = fl.cfg_of(a, "ref"), fl.cfg_of(a, "opt")
+    x = a["x"] if cr.mc is None else tuple(a["x"])
+    y = a["y"] if cr.mc is None else tuple(a["y"])
+    bad = iop_case(cr, co, x, y)
+    return None if not bad else {"mismatches": [(op, e, g) for op, (e, g) in bad]}
+
+
 def replay_fqform(a):
     cr, co = fl.cfg_of(a, "ref"), fl.cfg_of(a, "opt")
     bad = fqform_case(cr, co, tuple(a["x"]), tuple(a["y"]) if a.get("y") else None)
@@ -144,6 +185,16 @@ def task_tables(a, env):
                        bad_out[0], bad_out[1], note=op)
             r.ev += 6
             r.transitions += 6
+    # augmented assignment: value and absence of aliasing
+    nz = [b for b in B if not F.is_zero(b)][:3]
+    for xm in A[:60]:
+        for ym in nz:
+            for (op, bad_out) in iop_case(cr, co, xm, ym):
+                r.viol("C14:%s:augmented-assignment:%s" % (kind, op.split(":")[0]), ME + ":replay_iop",
+                       {"p": p, "mc": a.get("mc"), "x": fl.el_json(cr, xm), "y": fl.el_json(cr, ym)},
+                       bad_out[0], bad_out[1], note=op)
+            r.ev += 8
+            r.transitions += 8
     ks = fl.INT_OPERANDS_TINY(p)
     int_ops = ["add", "sub", "mul", "div", "radd", "rsub", "rmul", "rdiv", "eq", "ne"]
     if cr.mc is None:
